@@ -726,6 +726,12 @@ err_t dstuPointCompress(octet xpoint[], const dstu_params* params,
 	}
 	// y <- y / x
 	qrDiv(y, y, x, ec->f, stack);
+	// точка (1, y), tr(y) == 0, не сжимается: ее код совпал бы с кодом (0, \sqrt{B})
+	if (wwCmpW(x, ec->f->n, 1) == 0 && !gf2Tr(y, ec->f, stack))
+	{
+		dstuEcClose(ec);
+		return ERR_BAD_POINT;
+	}
 	// xpoint <- x(point), xpoint_0 <- tr(y)
 	memMove(xpoint, point, ec->f->no);
 	xpoint[0] &= 0xFE;
